@@ -12,6 +12,11 @@ use std::io::{BufRead, Write};
 
 /// Read an ndjson file into values.
 pub fn read_ndjson(path: &str) -> Vec<Value> {
+    stream_ndjson(path).collect()
+}
+
+/// Stream an ndjson file (or raw TLC output containing PrintT'ed JSON lines) value by value.
+pub fn stream_ndjson(path: &str) -> impl Iterator<Item = Value> {
     let f = std::fs::File::open(path).unwrap_or_else(|e| panic!("open {path}: {e}"));
     std::io::BufReader::new(f)
         .lines()
@@ -30,7 +35,6 @@ pub fn read_ndjson(path: &str) -> Vec<Value> {
                 None // TLC chatter
             }
         })
-        .collect()
 }
 
 pub struct Out(std::io::BufWriter<std::fs::File>);
